@@ -183,7 +183,7 @@ func genLayoutCases(p *PRNG, n int, tier string) []*Case {
 			l := RandomLayout(p.Fork())
 			v := singleBuild("layout-model", []byte(RenderTree(tree, l)))
 			v.Group = grp
-			v.Role = fmt.Sprintf("indent=%d nl=%q explicit=%d blockAnn=%v quote=%d comments=%d blank=%d trailing=%v", l.Indent, l.NL, l.ExplicitCtx, l.BlockAnn, l.QuoteParams, l.Comments, l.BlankLines, l.TrailingWs)
+			v.Role = fmt.Sprintf("indent=%d nl=%q explicit=%d blockAnn=%v quote=%d comments=%d blank=%d trailing=%v tabs=%v", l.Indent, l.NL, l.ExplicitCtx, l.BlockAnn, l.QuoteParams, l.Comments, l.BlankLines, l.TrailingWs, l.TabSep)
 			add(v)
 		}
 	}
@@ -491,6 +491,65 @@ func genPasteCases(p *PRNG, n int, tier string) []*Case {
 		}
 		add(c)
 	}
+	// all macro call graphs on three macros (every macro pastes a subset of size <= 2 of the three), used
+	// from each macro or from none: every labelled shape, so every order of the names relative to the
+	// cycle (a chain leading into a cycle, a cycle entered from a macro that sorts before / after it)
+	subsets := [][]int{{}, {0}, {1}, {2}, {0, 1}, {0, 2}, {1, 2}}
+	gi := 0
+	for _, e0 := range subsets {
+		for _, e1 := range subsets {
+			for _, e2 := range subsets {
+				es := [][]int{e0, e1, e2}
+				cyc := false
+				for a := 0; a < 3; a++ {
+					seen := map[int]bool{}
+					var dfs func(x int) bool
+					dfs = func(x int) bool {
+						for _, y := range es[x] {
+							if y == a {
+								return true
+							}
+							if !seen[y] {
+								seen[y] = true
+								if dfs(y) {
+									return true
+								}
+							}
+						}
+						return false
+					}
+					if dfs(a) {
+						cyc = true
+					}
+				}
+				for use := -1; use < 3; use++ {
+					gi++
+					if !cyc && gi%4 != 0 { // acyclic graphs are the common case elsewhere: a quarter of them
+						continue
+					}
+					var b strings.Builder
+					b.WriteString("JSIGHT 0.3\n")
+					for a := 0; a < 3; a++ {
+						fmt.Fprintf(&b, "MACRO @h%d\n(\n  TYPE @u%d_%d any\n", a, gi, a)
+						for _, t := range es[a] {
+							fmt.Fprintf(&b, "  PASTE @h%d\n", t)
+						}
+						b.WriteString(")\n")
+					}
+					if use >= 0 {
+						fmt.Fprintf(&b, "PASTE @h%d\n", use)
+					} else {
+						b.WriteString("GET /x\n  200 any\n")
+					}
+					c := singleBuild("macro-graph3", []byte(b.String()))
+					if cyc {
+						c.Want = "err|recursion"
+					}
+					add(c)
+				}
+			}
+		}
+	}
 	for i := 0; i < n/8+20; i++ {
 		add(singleBuild("macro-registry", []byte(macroRegistryDoc(p))))
 	}
@@ -571,7 +630,7 @@ func pastePost(cases []*Case, rep *Report) {
 		}
 	}
 	for _, c := range cases {
-		if c.Tag == "macro-graph" && c.Want == "err|recursion" {
+		if (c.Tag == "macro-graph" || c.Tag == "macro-graph3") && c.Want == "err|recursion" {
 			k, m := buildOutcome(c)
 			if k == "ok" {
 				addMonitor(rep, c, "C10", "a macro reaches itself through PASTE, but the document is accepted")
